@@ -114,3 +114,12 @@ Qed.
 
 Example result_new_same : result_new [Some 1; None; Some 3] [0; 1; 2] = result_new [Some 1; None; Some 3] [2; 1; 0].
 Proof. reflexivity. Qed.
+
+(* correspondence: [rs] = per file, Some (i+1) if file i cannot be read; observable = the number
+   of the file the returned fatal error names (0 = no fatal error).  The schedule does not
+   matter ([result_new_is_first_in_argument_order]); the identity schedule is evaluated. *)
+From AL Require Import Base.Corr.
+From Coq Require Import NArith.
+Definition run_fatal (rs : list (option N)) : list tuple :=
+  [[match result_new rs (seq 0 (length rs)) with Some i => i | None => 0%N end]].
+
